@@ -2,9 +2,17 @@
 
    x?  := ( ) for None | ( <value> )
 
-   req <scheme> <server> <host?> <root> <path> <query>
+   req <scheme> <server> <host?> <root> <path> <query>        root, path, query: Unicode text
         server := ( ) | ( <name> <port?> )
      -> <wsgi> <asgi>     each  <url-obs> | ( "exc" name ) | ( "n/a" )
+        the abstract request is rendered as an environ (SCRIPT_NAME / PATH_INFO / QUERY_STRING =
+        the Latin-1 text of the UTF-8 bytes) and as a scope (root_path / path text, query_string
+        the UTF-8 bytes) by C18/Unicode.v, and URL(environ=...) / URL(scope=...) run on those;
+        "n/a": no environ / scope carries the request
+   env <scheme> ( <name> <port> ) <host?> <SCRIPT_NAME> <PATH_INFO> <QUERY_STRING>   raw environ texts
+     -> <wsgi>            (also texts that are the rendering of no text: invalid UTF-8, characters > U+00FF)
+   scp <scheme> <server> <host?> <root_path> <path> <query_string bytes>             raw scope values
+     -> <asgi>
    split <text>           -> <url-obs> <geturl>   |  ( "exc" name )
    replace <text> ( ( <name> <value> ) ... )
         value := <text> for scheme/path/query/fragment, <text>? for username/password/hostname,
@@ -17,7 +25,7 @@
    url-obs := ( str(url) ( scheme netloc path query fragment ) username? password? hostname?
                 port repr )       port := ( ) | ( n ) | ( "exc" name )   repr := ( text ) | ( "exc" name ) *)
 From Coq Require Import List NArith ZArith Bool.
-From Baize Require Import Lib.Wire C18.Model.
+From Baize Require Import Lib.Wire C18.Model C18.Unicode.
 Import ListNotations.
 
 Definition show_exn (e : exn) : sx :=
@@ -52,16 +60,19 @@ Definition show_res (r : res url) : sx :=
   | Raise e => show_exn e
   end.
 
-(* Request.url (baize/wsgi/requests.py, baize/asgi/requests.py HTTPConnection.url): build the URL, read
-   .port once; a ValueError from either (a Host header that is no host[:port], text that is not UTF-8)
-   is answered with HTTPException(400) *)
-Definition show_request_url (x : res url) : sx :=
-  let http400 := Lst [tag (lit "exc"); tag (lit "HTTPException")] in
-  match x with
-  | Ok u => match port_of (netloc (ucomps u)) with Raise _ => http400 | Ok _ => show_url u end
-  | Raise ValueError => http400
-  | Raise e => show_exn e
+(* Request.url (baize/wsgi/requests.py, baize/asgi/requests.py HTTPConnection.url): [request_url] of
+   C18/Unicode.v — build the URL, read .port once; a ValueError from either (a Host header that is no
+   host[:port], text that is not UTF-8) is answered with HTTPException(400) *)
+Definition show_outcome (o : outcome) : sx :=
+  match o with
+  | GotUrl u => show_url u
+  | Http400 => Lst [tag (lit "exc"); tag (lit "HTTPException")]
+  | Escapes e => show_exn e
   end.
+
+Definition show_request_url (x : res url) : sx := show_outcome (request_url x).
+
+Definition not_applicable : sx := Lst [tag (lit "n/a")].
 
 Definition opt_str (s : sx) : option str :=
   match s with
@@ -129,11 +140,27 @@ Definition run (c : list sx) : list sx :=
       if str_eqb op (lit "req") then
         let r := {| r_scheme := sch; r_server := server_of server; r_host := opt_str host;
                     r_root := root; r_path := pth; r_query := qs |} in
-        [match environ_url r with
-         | Some x => show_request_url x
-         | None => Lst [tag (lit "n/a")]
+        [match environ_of r with
+         | Some e => show_request_url (url_of_environ e)
+         | None => not_applicable
          end;
-         show_request_url (scope_url r)]
+         match scope_of r with
+         | Some s => show_request_url (url_of_scope s)
+         | None => not_applicable
+         end]
+      else if str_eqb op (lit "env") then
+        match server_of server with
+        | Some (name, Some port) =>
+            [show_request_url
+               (url_of_environ {| e_scheme := sch; e_server_name := name; e_server_port := port;
+                                  e_http_host := opt_str host; e_script_name := root; e_path_info := pth;
+                                  e_query_string := qs |})]
+        | _ => [tag (lit "badcase")]
+        end
+      else if str_eqb op (lit "scp") then
+        [show_request_url
+           (url_of_scope {| s_scheme := sch; s_server := server_of server; s_host := opt_str host;
+                            s_root_path := root; s_path := pth; s_query_string := qs |})]
       else [tag (lit "badcase")]
   | [Str op; Str text] =>
       if str_eqb op (lit "split") then
